@@ -118,7 +118,7 @@ package standard
 //@ ensures [noslashable] result == rules.APPROVED ==> prefix4(req.Domain) != ATT && prefix4(req.Domain) != PROP
 //@ ensures [exit] result == rules.APPROVED && prefix4(req.Domain) == EXIT ==> metadata.IP != "" && (exists j int :: 0 <= j && j < len(s.adminIPs) && s.adminIPs[j] == metadata.IP)
 //@ ensures [compl] metadata != nil && prefix4(req.Domain) != ATT && prefix4(req.Domain) != PROP && (prefix4(req.Domain) == EXIT ==> metadata.IP != "" && (exists j int :: 0 <= j && j < len(s.adminIPs) && s.adminIPs[j] == metadata.IP)) ==> result == rules.APPROVED
-//@ loop #1
+//@ loop #1 over range s.adminIPs
 //@ invariant [range] 0 <= _n && _n <= len(s.adminIPs)
 //@ invariant [none] forall j int :: 0 <= j && j < _n ==> s.adminIPs[j] != metadata.IP
 
@@ -131,10 +131,10 @@ package standard
 //@ ensures [frame] forall k Bytes :: (forall i int :: 0 <= i && i < len(keys) ==> bytes(keys[i]) != k) ==> ((k in db) <==> (k in old(db))) && db[k] == old(db)[k]
 //@ ensures [partial] result != nil ==> (forall k Bytes :: (((k in db) <==> (k in old(db))) && db[k] == old(db)[k]) || (k in db && (exists i int :: 0 <= i && i < len(keys) && i < len(values) && bytes(keys[i]) == k && db[k] == bytes(values[i]))))
 //@ ensures [ok] store_ok && len(keys) == len(values) && len(keys) > 0 && (forall i int :: 0 <= i && i < len(keys) ==> len(keys[i]) > 0 && len(values[i]) > 0) ==> result == nil
-//@ loop #1
+//@ loop #1 over range keys
 //@ invariant [range] 0 <= _n && _n <= len(keys) && len(keys) == len(values)
 //@ invariant [nonempty] forall j int :: 0 <= j && j < _n ==> len(keys[j]) > 0 && len(values[j]) > 0
-//@ loop #2
+//@ loop #2 over range keys
 //@ invariant [range] 0 <= _n && _n <= len(keys) && len(keys) == len(values) && len(keys) > 0 && db == old(db)
 //@ invariant [nonempty] forall j int :: 0 <= j && j < len(keys) ==> len(keys[j]) > 0 && len(values[j]) > 0
 //@ invariant [dom] forall k Bytes :: k in wbuf ==> (exists j int :: 0 <= j && j < _n && bytes(keys[j]) == k && wbuf[k] == bytes(values[j]))
@@ -147,7 +147,7 @@ package standard
 //@ ensures [distinct] result1 == nil ==> (forall j int, k int :: 0 <= j && j < k && k < len(pubKeys) ==> result0[j] != result0[k])
 //@ ensures [undecodable] (exists j int :: 0 <= j && j < len(pubKeys) && !wmAttOk(bytes(pubKeys[j]))) ==> result1 != nil
 //@ ensures [ok] store_ok && (forall j int :: 0 <= j && j < len(pubKeys) ==> wmAttOk(bytes(pubKeys[j]))) ==> result1 == nil
-//@ loop #1
+//@ loop #1 over range pubKeys
 //@ invariant [range] 0 <= _n && _n <= len(pubKeys) && len(states) == len(pubKeys) && fresh(states)
 //@ invariant [each] forall j int :: 0 <= j && j < _n ==> states[j] != nil && fresh(states[j]) && allocated(states[j]) && wmAttOk(bytes(pubKeys[j])) && states[j].SourceEpoch == wmAttS(bytes(pubKeys[j])) && states[j].TargetEpoch == wmAttT(bytes(pubKeys[j]))
 //@ invariant [distinct] forall j int, k int :: 0 <= j && j < k && k < _n ==> states[j] != states[k]
@@ -164,13 +164,13 @@ package standard
 //@ ensures [partial-rows] result != nil && len(pubKeys) == len(states) ==> (forall i int :: 0 <= i && i < len(pubKeys) ==> ((((attKey(bytes(pubKeys[i])) in db) <==> (attKey(bytes(pubKeys[i])) in old(db))) && db[attKey(bytes(pubKeys[i]))] == old(db)[attKey(bytes(pubKeys[i]))]) || (wmAttOk(bytes(pubKeys[i])) && wmAttS(bytes(pubKeys[i])) == states[i].SourceEpoch && wmAttT(bytes(pubKeys[i])) == states[i].TargetEpoch)))
 //@ ensures [ok] store_ok && len(pubKeys) == len(states) && len(pubKeys) > 0 ==> result == nil
 //@ hint [inj] forall a Bytes, b Bytes :: bnorm(a) && bnorm(b) && attKey(a) == attKey(b) ==> a == b
-//@ loop #1
+//@ loop #1 over range keys
 //@ invariant [range] 0 <= _n && _n <= len(keys) && len(keys) == len(pubKeys) && len(values) == len(states) && len(pubKeys) == len(states) && fresh(keys) && fresh(values) && base(keys) != base(values)
 //@ invariant [alloc] forall j int :: 0 <= j && j < _n ==> allocated(keys[j]) && allocated(values[j]) && len(keys[j]) > 0 && len(values[j]) > 0
 //@ invariant [keys] forall j int :: 0 <= j && j < _n ==> bytes(keys[j]) == attKey(bytes(pubKeys[j]))
 //@ invariant [vals] forall j int :: 0 <= j && j < _n ==> decAttOk(bytes(values[j])) && decAttS(bytes(values[j])) == states[j].SourceEpoch && decAttT(bytes(values[j])) == states[j].TargetEpoch
 //@ hint [newkey] bytes(keys[_i]) == attKey(bytes(pubKeys[_i]))
-//@ loop #2
+//@ loop #2 over range states
 //@ invariant [range] 0 <= _n && _n <= len(states)
 
 //@ func (*Service).OnSignBeaconAttestations
@@ -197,25 +197,25 @@ package standard
 //@ hint-after storeSignBeaconAttestationStates@1 [frame] forall k Bytes :: (forall i int :: 0 <= i && i < len(metadata) ==> k != attKey(bytes(metadata[i].PubKey))) ==> ((k in db) <==> (k in old(db))) && db[k] == old(db)[k]
 //@ hint-after storeSignBeaconAttestationStates@1 [partialpk] result != nil ==> (forall i int :: 0 <= i && i < len(pubKeys) ==> ((((attKey(bytes(pubKeys[i])) in db) <==> (attKey(bytes(pubKeys[i])) in old(db))) && db[attKey(bytes(pubKeys[i]))] == old(db)[attKey(bytes(pubKeys[i]))]) || (wmAttOk(bytes(pubKeys[i])) && wmAttS(bytes(pubKeys[i])) == states[i].SourceEpoch && wmAttT(bytes(pubKeys[i])) == states[i].TargetEpoch)))
 //@ hint-after storeSignBeaconAttestationStates@1 [partial] result != nil ==> (forall i int :: 0 <= i && i < len(metadata) ==> wmAttOk(bytes(metadata[i].PubKey)) && ((wmAttS(bytes(metadata[i].PubKey)) == old(wmAttS(bytes(metadata[i].PubKey))) && wmAttT(bytes(metadata[i].PubKey)) == old(wmAttT(bytes(metadata[i].PubKey)))) || (wmAttS(bytes(metadata[i].PubKey)) == states[i].SourceEpoch && wmAttT(bytes(metadata[i].PubKey)) == states[i].TargetEpoch)))
-//@ loop #1
+//@ loop #1 over range res
 //@ invariant [range] 0 <= _n && _n <= len(res) && len(res) == len(req) && fresh(res)
 //@ invariant [unknown] forall j int :: 0 <= j && j < _n ==> res[j] == rules.UNKNOWN
-//@ loop #2
+//@ loop #2 over range res
 //@ invariant [range] 0 <= _n && _n <= len(res) && len(res) == len(req) && fresh(res)
 //@ invariant [noappr] forall j int :: 0 <= j && j < len(res) ==> res[j] == rules.UNKNOWN || res[j] == rules.FAILED
-//@ loop #3
+//@ loop #3 over range metadata
 //@ invariant [range] 0 <= _n && _n <= len(metadata)
 //@ invariant [nonnil] forall j int :: 0 <= j && j < _n ==> metadata[j] != nil
-//@ loop #4
+//@ loop #4 over range req
 //@ invariant [range] 0 <= _n && _n <= len(req)
 //@ invariant [nonnil] forall j int :: 0 <= j && j < _n ==> req[j] != nil && req[j].Source != nil && req[j].Target != nil
-//@ loop #5
+//@ loop #5 over range metadata
 //@ invariant [range] 0 <= _n && _n <= len(metadata) && len(pubKeys) == len(metadata) && fresh(pubKeys)
 //@ invariant [keys] forall j int :: 0 <= j && j < _n ==> pubKeys[j] == metadata[j].PubKey
-//@ loop #6
+//@ loop #6 over range res
 //@ invariant [range] 0 <= _n && _n <= len(res) && len(res) == len(req) && fresh(res)
 //@ invariant [noappr] forall j int :: 0 <= j && j < len(res) ==> res[j] == rules.UNKNOWN || res[j] == rules.FAILED
-//@ loop #7
+//@ loop #7 over range req
 //@ invariant [range] 0 <= _n && _n <= len(req) && len(res) == len(req) && fresh(res) && len(states) == len(req) && fresh(states)
 //@ invariant [frame] forall r *signBeaconAttestationState :: !fresh(r) ==> r.SourceEpoch == old(r.SourceEpoch) && r.TargetEpoch == old(r.TargetEpoch)
 //@ invariant [states] forall j int :: 0 <= j && j < len(req) ==> states[j] != nil && fresh(states[j])
@@ -225,7 +225,7 @@ package standard
 //@ invariant [appr] forall j int :: 0 <= j && j < _n && res[j] == rules.APPROVED ==> attOK(wmAttS(bytes(pubKeys[j])), wmAttT(bytes(pubKeys[j])), req[j].Source.Epoch, req[j].Target.Epoch, prefix4(req[j].Domain)) && states[j].SourceEpoch == req[j].Source.Epoch && states[j].TargetEpoch == req[j].Target.Epoch
 //@ invariant [deny] forall j int :: 0 <= j && j < _n && res[j] != rules.APPROVED ==> states[j].SourceEpoch == wmAttS(bytes(pubKeys[j])) && states[j].TargetEpoch == wmAttT(bytes(pubKeys[j]))
 //@ invariant [compl] forall j int :: 0 <= j && j < _n && attOK(wmAttS(bytes(pubKeys[j])), wmAttT(bytes(pubKeys[j])), req[j].Source.Epoch, req[j].Target.Epoch, prefix4(req[j].Domain)) ==> res[j] == rules.APPROVED
-//@ loop #8
+//@ loop #8 over range res
 //@ invariant [range] 0 <= _n && _n <= len(res) && len(res) == len(req) && fresh(res)
 //@ invariant [noappr] forall j int :: 0 <= j && j < _n ==> res[j] == rules.FAILED
 //@ invariant [verd] forall j int :: 0 <= j && j < len(res) ==> res[j] == rules.APPROVED || res[j] == rules.DENIED || res[j] == rules.FAILED
@@ -266,7 +266,7 @@ package standard
 //@ ensures [props] result == nil ==> (forall k [48]byte :: k in protection ==> wmPropL(bytes(k)) == (if protection[k].HighestProposedSlot != 0 - 1 then protection[k].HighestProposedSlot else old(wmPropL(bytes(k)))))
 //@ ensures [atts] result == nil ==> (forall k [48]byte :: k in protection ==> wmAttS(bytes(k)) == (if protection[k].HighestAttestedSourceEpoch != 0 - 1 then protection[k].HighestAttestedSourceEpoch else old(wmAttS(bytes(k)))) && wmAttT(bytes(k)) == (if protection[k].HighestAttestedSourceEpoch != 0 - 1 then protection[k].HighestAttestedTargetEpoch else old(wmAttT(bytes(k)))))
 //@ ensures [others] forall k [48]byte :: !(k in protection) ==> wmPropL(bytes(k)) == old(wmPropL(bytes(k))) && wmAttS(bytes(k)) == old(wmAttS(bytes(k))) && wmAttT(bytes(k)) == old(wmAttT(bytes(k)))
-//@ loop #1
+//@ loop #1 over range protection
 //@ invariant [props] forall k [48]byte :: visited()[k] ==> wmPropL(bytes(k)) == (if protection[k].HighestProposedSlot != 0 - 1 then protection[k].HighestProposedSlot else old(wmPropL(bytes(k))))
 //@ invariant [atts] forall k [48]byte :: visited()[k] ==> wmAttS(bytes(k)) == (if protection[k].HighestAttestedSourceEpoch != 0 - 1 then protection[k].HighestAttestedSourceEpoch else old(wmAttS(bytes(k)))) && wmAttT(bytes(k)) == (if protection[k].HighestAttestedSourceEpoch != 0 - 1 then protection[k].HighestAttestedTargetEpoch else old(wmAttT(bytes(k))))
 //@ invariant [rest] forall k [48]byte :: !visited()[k] ==> wmPropL(bytes(k)) == old(wmPropL(bytes(k))) && wmAttS(bytes(k)) == old(wmAttS(bytes(k))) && wmAttT(bytes(k)) == old(wmAttT(bytes(k)))
@@ -300,7 +300,7 @@ package standard
 //@ ensures [all] result == nil ==> (forall k [49]byte :: (k in items) <==> (bytes(k) in db)) && (forall k [49]byte :: k in items ==> items[k] != nil && allocated(items[k]) && bytes(items[k]) == db[bytes(k)])
 //@ hint-after Value@1 [new] result == nil ==> (forall k [49]byte :: bytes(k) == itemkey(item) ==> k in items && items[k] != nil && allocated(items[k]) && bytes(items[k]) == db[bytes(k)])
 //@ hint-after Value@1 [kept] result == nil ==> (forall k [49]byte :: k in items && bytes(k) != itemkey(item) ==> items[k] != nil && allocated(items[k]) && bytes(items[k]) == db[bytes(k)])
-//@ loop #1
+//@ loop #1 over for it.Valid()
 //@ invariant [dom] forall k [49]byte :: (k in items) <==> itseen[bytes(k)]
 //@ invariant [sub] forall b Bytes :: itseen[b] ==> b in db
 //@ invariant [vals] forall k [49]byte :: k in items ==> items[k] != nil && allocated(items[k]) && bytes(items[k]) == db[bytes(k)]
@@ -317,7 +317,7 @@ package standard
 //@ ensures [pubkey] result1 == nil ==> (forall k [48]byte :: k in result0 ==> len(result0[k].PubKey) == 48 && key48(result0[k].PubKey) == k)
 //@ hint [akey] forall k [48]byte :: bytes(withtag(k, 2)) == attKey(bytes(k))
 //@ hint [pkey] forall k [48]byte :: bytes(withtag(k, 3)) == propKey(bytes(k))
-//@ loop #1
+//@ loop #1 over range entries
 //@ invariant [ctx] results != nil && fresh(results) && entries != nil && (forall k [49]byte :: (k in entries) <==> (bytes(k) in db)) && (forall k [49]byte :: k in entries ==> entries[k] != nil && allocated(entries[k]) && bytes(entries[k]) == db[bytes(k)])
 //@ invariant [sub] forall k [49]byte :: visited()[k] ==> k in entries
 //@ invariant [tags] forall k [49]byte :: visited()[k] ==> k[48] == 2 || k[48] == 3
